@@ -111,96 +111,34 @@ func c17(c *Ctx) {
 		}
 		return 0, false
 	}}
-	ing := callsNamed(S, "(*"+netPkg+".MultiplexingListener).IngressConn")
-	if len(ing) == 0 {
+	ingSites := core.DeepCalls(S, core.MaxSummaryDepth, "(*"+netPkg+".MultiplexingListener).IngressConn")
+	if len(ingSites) == 0 {
 		r.Unk("R-C17.1", name+" IngressConn calls", p.Pos(S.Pos()), "none")
 	}
-	// receiver classification
-	recvKeys := func(v ssa.Value) []string {
-		var keys []string
-		var visit func(x ssa.Value)
-		seen := map[ssa.Value]bool{}
-		visit = func(x ssa.Value) {
-			x = core.Strip(x)
-			if seen[x] {
-				return
-			}
-			seen[x] = true
-			switch y := x.(type) {
-			case *ssa.Phi:
-				for _, e := range y.Edges {
-					visit(e)
-				}
-			case *ssa.TypeAssert:
-				visit(y.X)
-			case *ssa.Extract:
-				if lc, ok := y.Tuple.(*ssa.Call); ok && core.CalleeName(lc.Common()) == "(*sync.Map).Load" {
-					if k, ok := core.ConstString(core.Strip(lc.Call.Args[1])); ok {
-						keys = append(keys, "Load:"+k)
-						return
-					}
-					keys = append(keys, "Load:<non-constant>")
-					return
-				}
-				if ta, ok := y.Tuple.(*ssa.TypeAssert); ok {
-					visit(ta.X)
-					return
-				}
-				keys = append(keys, "other:"+core.ValueName(y))
-			case *ssa.UnOp:
-				if al, ok := y.X.(*ssa.Alloc); ok {
-					// captured variable: all stores in this function and in closures
-					for _, ref := range *al.Referrers() {
-						if st, ok := ref.(*ssa.Store); ok {
-							visit(st.Val)
-						}
-						if mc, ok := ref.(*ssa.MakeClosure); ok {
-							cf := mc.Fn.(*ssa.Function)
-							for i, bnd := range mc.Bindings {
-								if bnd != ssa.Value(al) {
-									continue
-								}
-								fv := cf.FreeVars[i]
-								for _, r2 := range *fv.Referrers() {
-									if st, ok := r2.(*ssa.Store); ok && st.Addr == ssa.Value(fv) {
-										// value assigned inside the Range callback
-										if ta, ok := core.Strip(st.Val).(*ssa.TypeAssert); ok {
-											if pr, ok := ta.X.(*ssa.Parameter); ok && len(cf.Params) == 2 && pr == cf.Params[1] {
-												keys = append(keys, "Range:"+rangeKeyCondition(cf, st))
-												continue
-											}
-										}
-										keys = append(keys, "closure-other")
-									}
-								}
-							}
-						}
-					}
-					return
-				}
-				keys = append(keys, "other:"+core.ValueName(y))
-			case *ssa.Const:
-				if y.Value == nil {
-					return
-				}
-				keys = append(keys, "const")
-			default:
-				keys = append(keys, "other:"+core.ValueName(x))
-			}
+	isConn := func(v ssa.Value) bool {
+		v = core.Strip(v)
+		if v == conn || v == protoConn {
+			return true
 		}
-		visit(v)
-		sort.Strings(keys)
-		return keys
+		pp := core.PathOf(v)
+		return (pp.Root == conn || pp.Root == protoConn) && pp.HasFields("Conn")
 	}
-	for i, ic := range ing {
-		keys := recvKeys(ic.Call.Args[0])
+	for i, site := range ingSites {
+		ic := site.Instr.(*ssa.Call)
+		r.Fn(core.FuncName(site.Fn))
+		var keys []string
+		okArg := false
+		site.In(func() {
+			keys = listenerSources(p, ic.Call.Args[0], isConn, 0)
+			okArg = isConn(ic.Call.Args[1])
+		})
+		sort.Strings(keys)
+		keys = dedup(keys)
 		kstr := strings.Join(keys, ",")
 		construct := fmt.Sprintf("%s IngressConn#%d receiver{%s}", name, i, kstr)
-		// argument must be this connection
-		okArg := core.Strip(ic.Call.Args[1]) == protoConn || core.Strip(ic.Call.Args[1]) == conn
 		r.Check(okArg, "R-C17.1", construct+" argument", p.Pos(ic.Pos()), "ingresses the connection just accepted", "ingresses a value other than the connection just accepted")
 		unauth := kstr == "Load:__UNAUTH__"
-		authOnly := true
+		authOnly := len(keys) > 0
 		for _, k := range keys {
 			if k != "Load:__AUTH__" && k != "Range:key==client-protocol" {
 				authOnly = false
@@ -208,11 +146,11 @@ func c17(c *Ctx) {
 		}
 		switch {
 		case unauth:
-			res := core.CutReach(p, S, gUnknown, ic.Block())
+			res := core.CutDeep(p, S, gUnknown, site)
 			r.CutOb(p, "R-C17.1", construct+" only for non-library protocols", p.Pos(ic.Pos()), res, gUnknown)
-		case authOnly && len(keys) > 0:
+		case authOnly:
 			for _, g := range []core.Guard{gKnown, gNotFetch, gComplete} {
-				res := core.CutReach(p, S, g, ic.Block())
+				res := core.CutDeep(p, S, g, site)
 				r.CutOb(p, "R-C17.1", construct+" guard="+g.Name, p.Pos(ic.Pos()), res, g)
 			}
 		default:
@@ -225,21 +163,20 @@ func c17(c *Ctx) {
 	if !okT {
 		r.Unk("R-C17.2", name+" accept error test", p.Pos(acc.Pos()), "not found")
 	} else {
-		isAlias := func(v ssa.Value) bool {
-			v = core.Strip(v)
-			return v == conn || v == protoConn
+		base := func(in ssa.Instruction, isAlias func(ssa.Value) bool) bool {
+			if isCloseOf(in, isAlias) {
+				return true
+			}
+			if cc, ok := in.(*ssa.Call); ok && strings.HasSuffix(core.CalleeName(cc.Common()), "MultiplexingListener).IngressConn") {
+				return isAlias(cc.Call.Args[1])
+			}
+			return false
 		}
 		header := acc.Block()
 		res := core.Ownership(p, core.OwnSpec{
 			Fn: S, Start: succ,
 			Consume: func(in ssa.Instruction) bool {
-				if isCloseOf(in, isAlias) {
-					return true
-				}
-				if cc, ok := in.(*ssa.Call); ok && strings.HasSuffix(core.CalleeName(cc.Common()), "MultiplexingListener).IngressConn") {
-					return isAlias(cc.Call.Args[1])
-				}
-				return false
+				return base(in, isConn) || core.CallConsumes(p, in, isConn, base, 1)
 			},
 			End: func(from, to *ssa.BasicBlock) bool { return to == header },
 		})
@@ -302,54 +239,69 @@ func c17(c *Ctx) {
 	// R-C17.4
 	if A := c.need("R-C17.4", "net", "(*MultiplexingListener).Accept"); A != nil {
 		aname := "net.(*MultiplexingListener).Accept"
-		recv := ssa.Value(A.Params[0])
+		// the returns that decide what is handed out: Accept's own, or those of a
+		// helper whose result Accept returns
+		type retSite struct {
+			fn    *ssa.Function
+			ret   *ssa.Return
+			subst map[ssa.Value]ssa.Value
+		}
+		var sites []retSite
+		for _, ret := range core.Returns(A) {
+			if vals, subst, h := helperResult(ret.Results[0]); h != nil && len(vals) > 0 {
+				r.Fn(core.FuncName(h))
+				for _, hr := range core.Returns(h) {
+					sites = append(sites, retSite{h, hr, subst})
+				}
+				continue
+			}
+			sites = append(sites, retSite{A, ret, nil})
+		}
 		n := 0
-		for i, ret := range core.Returns(A) {
-			v := core.Strip(ret.Results[0])
-			if core.IsNilConst(v) {
-				continue
-			}
-			vp := core.PathOf(v)
-			if vp.HasFields("Conn") {
-				n++
-				gs := []core.Guard{
-					core.NilTest("l.nativeConns non-nil", core.FieldOf(recv, "nativeConns"), false),
-					core.FlagClear("*l.nativeConns", func(pp core.Path) bool {
-						// load through the pointer: deref of l.nativeConns
-						return false
-					}),
+		for i, st := range sites {
+			core.WithSubst(st.subst, func() {
+				fn, ret := st.fn, st.ret
+				recv := ssa.Value(fn.Params[0])
+				v := core.Strip(core.ReturnOperand(ret, 0))
+				if core.IsNilConst(v) {
+					return
 				}
-				_ = gs
-				gNative := core.Guard{Name: "*l.nativeConns == false", Match: func(cond ssa.Value) (int, bool) {
-					u, ok := cond.(*ssa.UnOp)
-					if !ok || u.Op != token.MUL {
+				vp := core.PathOf(v)
+				if vp.HasFields("Conn") {
+					n++
+					gNative := core.Guard{Name: "*l.nativeConns == false", Match: func(cond ssa.Value) (int, bool) {
+						u, ok := cond.(*ssa.UnOp)
+						if !ok || u.Op != token.MUL {
+							return 0, false
+						}
+						ip := core.PathOf(u.X)
+						if ip.HasFields("nativeConns") && (ip.Root == recv || ip.Root == core.Strip(recv)) {
+							return 1, true
+						}
 						return 0, false
+					}}
+					gSet := core.NilTest("l.nativeConns non-nil", func(pp core.Path) bool {
+						return pp.HasFields("nativeConns") && (pp.Root == recv || pp.Root == core.Strip(recv))
+					}, false)
+					gIsProto := core.Guard{Name: "value is *protocol.Conn", Match: func(cond ssa.Value) (int, bool) {
+						ex, ok := cond.(*ssa.Extract)
+						if !ok || ex.Index != 1 {
+							return 0, false
+						}
+						ta, ok := ex.Tuple.(*ssa.TypeAssert)
+						if !ok || !namedType(ta.AssertedType, mod+"/protocol", "Conn") {
+							return 0, false
+						}
+						return 0, true
+					}}
+					for _, g := range []core.Guard{gSet, gNative, gIsProto} {
+						res := core.CutReach(p, fn, g, ret.Block())
+						r.CutOb(p, "R-C17.4", fmt.Sprintf("%s return#%d (stripped) guard=%s", aname, i, g.Name), p.Pos(ret.Pos()), res, g)
 					}
-					ip := core.PathOf(u.X)
-					if ip.Root == recv && ip.HasFields("nativeConns") {
-						return 1, true
-					}
-					return 0, false
-				}}
-				gSet := core.NilTest("l.nativeConns non-nil", core.FieldOf(recv, "nativeConns"), false)
-				gIsProto := core.Guard{Name: "value is *protocol.Conn", Match: func(cond ssa.Value) (int, bool) {
-					ex, ok := cond.(*ssa.Extract)
-					if !ok || ex.Index != 1 {
-						return 0, false
-					}
-					ta, ok := ex.Tuple.(*ssa.TypeAssert)
-					if !ok || !namedType(ta.AssertedType, mod+"/protocol", "Conn") {
-						return 0, false
-					}
-					return 0, true
-				}}
-				for _, g := range []core.Guard{gSet, gNative, gIsProto} {
-					res := core.CutReach(p, A, g, ret.Block())
-					r.CutOb(p, "R-C17.4", fmt.Sprintf("%s return#%d (stripped) guard=%s", aname, i, g.Name), p.Pos(ret.Pos()), res, g)
+					return
 				}
-				continue
-			}
-			r.Check(vp.HasFields("conn"), "R-C17.4", fmt.Sprintf("%s return#%d value", aname, i), p.Pos(ret.Pos()), "the received connection unchanged", "returns something other than the received connection or its embedded TLS connection")
+				r.Check(vp.HasFields("conn"), "R-C17.4", fmt.Sprintf("%s return#%d value", aname, i), p.Pos(ret.Pos()), "the received connection unchanged", "returns something other than the received connection or its embedded TLS connection")
+			})
 		}
 		if n == 0 {
 			r.Bad("R-C17.4", aname+" stripped return", p.Pos(A.Pos()), "no return of the embedded *tls.Conn: sub-listeners never hand out plain TLS connections")
@@ -478,33 +430,177 @@ func registryAssert(ta *ssa.TypeAssert) bool {
 	return false
 }
 
-// rangeKeyCondition describes the condition under which the Range callback
-// assigns the found listener: "key==client-protocol" when the store is
-// guarded by k.(string) == <element of the client protocol list>.
-func rangeKeyCondition(cf *ssa.Function, st *ssa.Store) string {
-	for _, b := range cf.Blocks {
-		ifi, ok := b.Instrs[len(b.Instrs)-1].(*ssa.If)
-		if !ok {
-			continue
+// rangeKeyCondition describes the condition under which the registry Range
+// callback cf assigns the found listener (store st): "key==client-protocol"
+// when every path to the store passes the test "the registry key equals one
+// of the protocols offered by this connection's client" - written as
+// k.(string) == <element of L> or slices.Contains(L, k.(string)), with L the
+// result of ClientNextProtos() on this connection.
+func rangeKeyCondition(p *core.Prog, cf *ssa.Function, st *ssa.Store, isConn func(ssa.Value) bool) string {
+	isKey := func(v ssa.Value) bool {
+		ta, ok := core.Strip(v).(*ssa.TypeAssert)
+		return ok && ta.X == ssa.Value(cf.Params[0])
+	}
+	isClientProtos := func(v ssa.Value) bool {
+		root := core.PathOf(v)
+		if len(root.Fields) != 0 {
+			return false
 		}
-		bo, ok := ifi.Cond.(*ssa.BinOp)
-		if !ok || bo.Op != token.EQL {
-			continue
-		}
-		var keyOK, protoOK bool
-		for _, side := range []ssa.Value{bo.X, bo.Y} {
-			if ta, ok := side.(*ssa.TypeAssert); ok && ta.X == ssa.Value(cf.Params[0]) {
-				keyOK = true
+		cc, _ := core.CallResult(core.Strip(root.Root))
+		return cc != nil && strings.HasSuffix(core.CalleeName(cc.Common()), "protocol.Conn).ClientNextProtos") && isConn(cc.Call.Args[0])
+	}
+	g := core.Guard{Name: "registry key is one of the client's protocols", Match: func(cond ssa.Value) (int, bool) {
+		switch c := cond.(type) {
+		case *ssa.BinOp:
+			if c.Op != token.EQL && c.Op != token.NEQ {
+				return 0, false
 			}
-			if sp, ok := elemOf(side); ok {
-				if fv, ok := sp.Root.(*ssa.FreeVar); ok && strings.Contains(strings.ToLower(fv.Name()), "proto") {
-					protoOK = true
+			for _, pair := range [][2]ssa.Value{{c.X, c.Y}, {c.Y, c.X}} {
+				if !isKey(pair[0]) {
+					continue
+				}
+				if sp, ok := elemOf(core.Strip(pair[1])); ok && isClientProtos(sp.Root) && len(sp.Fields) == 0 {
+					if c.Op == token.EQL {
+						return 0, true
+					}
+					return 1, true
 				}
 			}
+		case *ssa.Call:
+			if core.CalleeName(c.Common()) == "slices.Contains" && len(c.Call.Args) == 2 && isKey(c.Call.Args[1]) && isClientProtos(c.Call.Args[0]) {
+				return 0, true
+			}
 		}
-		if keyOK && protoOK && len(b.Succs[0].Preds) == 1 && b.Succs[0].Dominates(st.Block()) {
-			return "key==client-protocol"
-		}
+		return 0, false
+	}}
+	res := core.CutReach(p, cf, g, st.Block())
+	if !res.Reachable && len(res.Instances) > 0 {
+		return "key==client-protocol"
 	}
 	return "unguarded"
+}
+
+func dedup(in []string) []string {
+	var out []string
+	seen := map[string]bool{}
+	for _, s := range in {
+		if !seen[s] {
+			seen[s] = true
+			out = append(out, s)
+		}
+	}
+	return out
+}
+
+// listenerSources classifies where a *MultiplexingListener value comes from:
+// "Load:<constant key>" (registry lookup by a constant name),
+// "Range:key==client-protocol" (registry entry whose key equals one of the
+// protocols the client of this connection offered), or an "other:" source.
+// Helper results are followed with the helper's parameters bound to the
+// call's arguments.
+func listenerSources(p *core.Prog, v ssa.Value, isConn func(ssa.Value) bool, depth int) []string {
+	var keys []string
+	seen := map[ssa.Value]bool{}
+	var visit func(x ssa.Value)
+	follow := func(y ssa.Value) bool {
+		if vals, subst, h := helperResult(y); h != nil && depth < core.MaxSummaryDepth {
+			core.WithSubst(subst, func() {
+				for _, rv := range vals {
+					keys = append(keys, listenerSources(p, rv, isConn, depth+1)...)
+				}
+			})
+			return true
+		}
+		return false
+	}
+	visit = func(x ssa.Value) {
+		x = core.Strip(x)
+		if seen[x] {
+			return
+		}
+		seen[x] = true
+		switch y := x.(type) {
+		case *ssa.Phi:
+			for _, e := range y.Edges {
+				visit(e)
+			}
+		case *ssa.TypeAssert:
+			visit(y.X)
+		case *ssa.Extract:
+			if lc, ok := y.Tuple.(*ssa.Call); ok && core.CalleeName(lc.Common()) == "(*sync.Map).Load" {
+				if k, ok := core.ConstString(core.Strip(lc.Call.Args[1])); ok {
+					keys = append(keys, "Load:"+k)
+				} else {
+					keys = append(keys, "Load:<non-constant>")
+				}
+				return
+			}
+			if ta, ok := y.Tuple.(*ssa.TypeAssert); ok {
+				visit(ta.X)
+				return
+			}
+			if follow(y) {
+				return
+			}
+			keys = append(keys, "other:"+core.ValueName(y))
+		case *ssa.Call:
+			if follow(y) {
+				return
+			}
+			keys = append(keys, "other:"+shortName(core.CalleeName(y.Common())))
+		case *ssa.UnOp:
+			al, ok := y.X.(*ssa.Alloc)
+			if !ok {
+				keys = append(keys, "other:"+core.ValueName(y))
+				return
+			}
+			// a local variable, possibly captured: all stores here and in closures
+			for _, ref := range *al.Referrers() {
+				if st, ok := ref.(*ssa.Store); ok && st.Addr == ssa.Value(al) {
+					visit(st.Val)
+				}
+				mc, ok := ref.(*ssa.MakeClosure)
+				if !ok {
+					continue
+				}
+				cf := mc.Fn.(*ssa.Function)
+				bind := map[ssa.Value]ssa.Value{}
+				for i, fv := range cf.FreeVars {
+					bind[fv] = mc.Bindings[i]
+				}
+				for i, bnd := range mc.Bindings {
+					if bnd != ssa.Value(al) {
+						continue
+					}
+					fv := cf.FreeVars[i]
+					for _, r2 := range *fv.Referrers() {
+						st, ok := r2.(*ssa.Store)
+						if !ok || st.Addr != ssa.Value(fv) {
+							continue
+						}
+						if ta, ok := core.Strip(st.Val).(*ssa.TypeAssert); ok {
+							if pr, ok := ta.X.(*ssa.Parameter); ok && len(cf.Params) == 2 && pr == cf.Params[1] {
+								core.WithSubst(bind, func() {
+									keys = append(keys, "Range:"+rangeKeyCondition(p, cf, st, isConn))
+								})
+								continue
+							}
+						}
+						if core.IsNilConst(st.Val) {
+							continue
+						}
+						keys = append(keys, "closure-other")
+					}
+				}
+			}
+		case *ssa.Const:
+			if y.Value != nil {
+				keys = append(keys, "const")
+			}
+		default:
+			keys = append(keys, "other:"+core.ValueName(x))
+		}
+	}
+	visit(v)
+	return keys
 }
